@@ -7,6 +7,7 @@ given, from cold and from warm caches; after every step the tracked Sids (string
 they were, and a Sid constructed afresh from the same argument must equal the tracked one.
 """
 from __future__ import annotations
+import json
 import itertools, json
 from mc.rec import Recorder
 from mc import universe
@@ -113,6 +114,46 @@ def run_pairs(ref, rec, index, count):
             rec.violation("set-size-differs-from-distinct-uris", "sort", ["set"], len(set(sids)), len({x.uri for x in sids}))
         if len({x: 1 for x in sids}) != len({x.uri for x in sids}):
             rec.violation("dict-size-differs-from-distinct-uris", "sort", ["dict"], 0, 0)
+        for v in cross_process(sids):
+            rec.violation(v["signature"], "xproc", ["pickle"], v["observed"], v["expected"])
+        rec.case("pickled-to-another-process", True)
+
+
+def cross_process(sids):
+    """Sids pickled here and loaded by an interpreter with another string-hash seed are equal to the Sids built there from the
+    same uris, hash like them, and are found in sets and dictionaries of them."""
+    import pickle, subprocess, sys, os, tempfile
+    d = tempfile.mkdtemp(dir=os.environ.get("VERIF_WORKDIR"))
+    f = os.path.join(d, "sids.pickle")
+    with open(f, "wb") as fh:
+        pickle.dump([(x.uri, x) for x in sids if x], fh)        # typed Sids: the uri is a spelling that rebuilds them
+    e = dict(os.environ, PYTHONHASHSEED="424242")
+    p = subprocess.run([sys.executable, "-m", "props.c14", "load", f], capture_output=True, text=True, env=e,
+                       cwd=os.path.dirname(os.path.dirname(os.path.abspath(__file__))))
+    line = [l for l in p.stdout.splitlines() if l.startswith("XPROC ")]
+    if p.returncode != 0 or not line:
+        return [dict(signature="unpickling-in-another-process-fails", observed=(p.stderr or p.stdout)[-300:], expected="equal Sids")]
+    bad = json.loads(line[-1][6:])
+    return [dict(signature="sid-pickled-to-another-process-is-not-the-same-value/" + bad[0][1], observed=bad[:3], expected="equal, same hash, found in set and dict")] if bad else []
+
+
+def _load_main(f):
+    import pickle
+    from mc import env
+    env.boot()
+    from spil import Sid
+    bad = []
+    for text, x in pickle.load(open(f, "rb")):
+        y = Sid(text)
+        if not (x == y and y == x):
+            bad.append([text, "eq"])
+        elif hash(x) != hash(y):
+            bad.append([text, "hash"])
+        elif x not in {y} or {y: 1}.get(x) != 1 or len({x, y}) != 1:
+            bad.append([text, "container"])
+        elif [x.string, x.type, dict(x.fields)] != [y.string, y.type, dict(y.fields)]:
+            bad.append([text, "content"])
+    print("XPROC " + json.dumps(bad[:10]))
 
 
 # ------------------------------------------------------------------------------------------------ histories
@@ -348,6 +389,8 @@ def replay_case(kind, case):
         U = dict(build_universe(ref, Sid))
         la, lb = case
         return [dict(signature=sig, observed=obs, expected=exp) for sig, obs, exp in pair_violations(la, U[la](), lb, U[lb]())]
+    if kind == "xproc":
+        return cross_process([f() for _, f in build_universe(ref, Sid)])
     if kind == "sort":
         rec = Recorder()
         run_pairs(ref, rec, 0, 10 ** 9)
@@ -360,3 +403,9 @@ def replay_case(kind, case):
 
 def coverage(m, tier, seed):
     return {"exhaustive": True, "bounds": {"history_length": 4 if tier == "thorough" else 3}, "explorers": m["extra"][:3]}
+
+
+if __name__ == "__main__":
+    import sys
+    if sys.argv[1] == "load":
+        _load_main(sys.argv[2])
